@@ -288,6 +288,48 @@ impl DateFilter for ds::MonthdayRange {
             ds::MonthdayRange::Month { year, range } => {
                 year.unwrap_or(in_year) == in_year && range.wrapping_contains(&in_month)
             }
+            // A range which starts on a given year describes a single interval: it does not recur
+            // every year and it may span more years than the window used for recurring ranges.
+            ds::MonthdayRange::Date {
+                start:
+                    (
+                        ds::Date::Fixed {
+                            year: Some(start_year),
+                            month: start_month,
+                            day: start_day,
+                        },
+                        start_offset,
+                    ),
+                end:
+                    (ds::Date::Fixed { year: end_year, month: end_month, day: end_day }, end_offset),
+            } => {
+                let start_year: i32 = (*start_year).into();
+
+                let start = start_offset.apply(valid_ymd_after(
+                    start_year,
+                    *start_month as _,
+                    (*start_day).into(),
+                ));
+
+                let end_on_year = |year: i32| {
+                    end_offset.apply(valid_ymd_before(year, *end_month as _, (*end_day).into()))
+                };
+
+                let end = match end_year {
+                    Some(end_year) => end_on_year((*end_year).into()),
+                    None => {
+                        let candidate = end_on_year(start_year);
+
+                        if start <= candidate {
+                            candidate
+                        } else {
+                            end_on_year(start_year + 1)
+                        }
+                    }
+                };
+
+                start <= date && date <= end
+            }
             ds::MonthdayRange::Date {
                 start: (start, start_offset),
                 end: (end, end_offset),
